@@ -102,8 +102,9 @@ def okind_of(v):
 
 
 def sentinel(tok):
-    """ an exactly representable float unlikely to occur by accident """
-    return 0.1328125 + tok / 4096.0
+    """ an exactly representable float that cannot occur by accident: the 2**-34 term gives every sentinel low mantissa bits that
+        no constant written in the package has (round 3: sentinel(480) used to be exactly 0.25, a default value of Syphilis) """
+    return 0.1328125 + tok / 4096.0 + 2.0 ** -34
 
 
 def _probe_fn(module, sim, uids):  # a user function usable as a distribution parameter
@@ -1504,6 +1505,12 @@ def oracle_sim_inputs(seed):
 def oracle_precedence(cls, par, tok):
     """ the same parameter in the pars dict and as a keyword: exactly one of the two values is in effect, always the same one """
     quiet()
+    try:
+        base = construct(cls)
+        while graph_has(base, None, 'number', tok) or graph_has(base, None, 'number', tok + 1):
+            tok += 2        # a default of the class happens to equal a sentinel: the detection would be ambiguous
+    except Exception:
+        return None
     a_, b_ = sentinel(tok), sentinel(tok + 1)
     outs = []
     for i in range(2):
